@@ -351,8 +351,9 @@ def evalf(dom, r, env):
     return ev(r)
 
 
-def _dominates(dom, M, u):
-    """is |u| <= M for every input?  M a closed form; u one sample (a Rat)"""
+def _dominates(dom, M, u, in_magnitude=True):
+    """is |u| <= |M| for every input (in_magnitude), or |u| <= M itself (M is then known to be non-negative)?  M a closed form; u one
+    sample (a Rat)"""
     R = dom.R
     ats = M.atoms()
     if len(ats) != 1 or not (M == Rat(R.atom(list(ats)[0]))):
@@ -382,7 +383,7 @@ def _dominates(dom, M, u):
                 return True
         return False
     info = R.info.get(m)
-    if info and info[0] == 'max_by_abs':
+    if info and info[0] == 'max_by_abs' and in_magnitude:
         # the argument of largest magnitude, with its sign: in magnitude it is max(|a|, |b|, ...)
         sts = [stat_of(a if isinstance(a, Rat) else Rat(a)) for a in info[1]]
         los = [st[1] for st in sts if st and st[0] == 'min']
@@ -390,7 +391,7 @@ def _dominates(dom, M, u):
         return any(holds(lo) and holds(hi) for lo in los for hi in his)
     if info and info[0] == 'max':
         args = [a if isinstance(a, Rat) else Rat(a) for a in info[1]]
-        if any(_dominates(dom, a, u) for a in args):
+        if any(_dominates(dom, a, u, in_magnitude=False) for a in args):
             return True
         lo_sets, hi_sets = [], []
         for a in args:
@@ -479,7 +480,8 @@ def codev_range(run, dom, fw, wp, content, label, limit=32767):
                     (mono, c), = q.num.t.items()
                     if len(mono) == 1 and mono[0][1] == 1 and abs(c / q.den.const_value()) <= 2 ** 20:
                         u = Rat(dom.R.atom(mono[0][0]))
-                        if _dominates(dom, big, u) or _dominates(dom, big, u * (c / q.den.const_value())) or any(_dominates(dom, big, u * k) for k in (Rat(dom.R.const(1)) / 1000,)):
+                        # the test bounds `big` itself from above: it must dominate |u| as a number, not only in magnitude
+                        if any(_dominates(dom, big, w, in_magnitude=False) for w in (u, u * (c / q.den.const_value()), u * (Rat(dom.R.const(1)) / 1000))):
                             ok = True
                             break
         if not ok:
